@@ -101,3 +101,21 @@ Proof. induction loop as [|x t IH]; intros H i e Hi; [destruct i; discriminate|]
     destruct Htx as [a Ha]. exists a, h. split; [exact Ha|]. split; [exact Hh|]. split; [cbn [cell_cycle map nth_error]; rewrite Ha; reflexivity|].
     destruct t as [|e' t']; cbn [nth_error]; exact Ht.
   - cbn [nth_error] in Hi. destruct (IH Hrest i e Hi) as [a [b [H1 [H2 [H3 H4]]]]]. exists a, b. repeat split; try assumption. Qed.
+
+(* ------------------------------------------------------------------ the parsed mesh references only what it keeps (C09 for the dump parser) *)
+(* every kept mesh edge joins kept vertices (when the dump defines its end points), every vertex of a cell cycle is kept (when the dump
+   defines it), and no kept vertex is outside every cell *)
+Theorem parsed_mesh_references_exist vids edges cells :
+  (forall k v1 v2, In (k, (v1, v2)) (kept_edges edges cells) -> In v1 vids -> In v2 vids ->
+     In v1 (kept_vertices vids cells) /\ In v2 (kept_vertices vids cells)) /\
+  (forall c v, In c cells -> In v c -> In v vids -> In v (kept_vertices vids cells)) /\
+  (forall v, In v (kept_vertices vids cells) -> exists c, In c cells /\ In v c).
+Proof.
+  destruct (orphans_dropped vids edges cells) as [Hv He]. repeat split.
+  - apply Hv. split; [assumption|]. apply He in H. tauto.
+  - apply Hv. split; [assumption|]. apply He in H. tauto.
+  - intros c v Hc Hin Hvid. apply Hv. split; [exact Hvid|]. unfold in_some_cell. apply existsb_exists. exists c. split; [exact Hc|].
+    apply existsb_exists. exists v. split; [exact Hin | apply Z.eqb_refl].
+  - intros v H. apply Hv in H. destruct H as [_ H]. unfold in_some_cell in H. apply existsb_exists in H. destruct H as [c [Hc H]].
+    apply existsb_exists in H. destruct H as [w [Hw E]]. apply Z.eqb_eq in E. subst w. exists c. split; assumption.
+Qed.
